@@ -158,16 +158,26 @@ def run_model(model_driver, cf, timeout, env):
         except Exception:  # noqa
             pass
     nsh = min(int(os.environ.get("VERIF_MODEL_SHARDS", "12")), len(lines) // 24)
-    if lines and max(len(l) for l in lines) > 1000000:
-        nsh = min(nsh, 4)       # megabyte-sized rows (deep nesting, 200 000 unknown fields) cost the model about 8 GB each
+    if any(len(l) > 1000000 and not l.startswith("msg\t") for l in lines):
+        nsh = min(nsh, 4)       # megabyte-sized decoder rows (deep nesting, 200 000 unknown fields) cost the model about 8 GB each
+                                # (megabyte-sized msg rows are skipped by the model)
     if nsh <= 1:
         p = subprocess.run([model_driver, cf], stdout=subprocess.PIPE, stderr=subprocess.PIPE, text=True, timeout=timeout, env=env, preexec_fn=big_stack)
         if p.returncode != 0:
             raise RuntimeError("model driver failed: " + p.stderr[-2000:])
         return p.stdout.split("\n")
+    # rows go to the shard with the least work so far, longest rows first (the model's cost grows faster than the row length)
+    owner = [0] * len(lines)
+    load = [0.0] * nsh
+    for i in sorted(range(len(lines)), key=lambda i: -len(lines[i])):
+        if lines[i].startswith("schema\t"):
+            continue
+        k = min(range(nsh), key=lambda k: load[k])
+        owner[i] = k
+        load[k] += 200 + (len(lines[i]) if len(lines[i]) < 1500000 else 1000) ** 1.3
     procs = []
     for k in range(nsh):
-        idx = [i for i, l in enumerate(lines) if i % nsh == k or l.startswith("schema\t")]
+        idx = [i for i, l in enumerate(lines) if l.startswith("schema\t") or owner[i] == k]
         sf = "%s.shard%d" % (cf, k)
         with open(sf, "w") as f:
             f.write("".join(lines[i] + "\n" for i in idx))
@@ -190,7 +200,7 @@ def run_model(model_driver, cf, timeout, env):
             continue
         ol = so.split("\n")
         for j, i in enumerate(idx):
-            if i % nsh == k and j < len(ol):
+            if (owner[i] == k or (k == 0 and lines[i].startswith("schema\t"))) and j < len(ol):
                 out[i] = ol[j]
     if err is not None:
         raise RuntimeError("model driver failed: " + err)
